@@ -192,7 +192,7 @@ Lemma assign_all_ok E c kw : forall s s',
   class_ok E c = true -> post_safe c = true -> ShInv c s -> keys_unique c -> kw_ok c kw ->
   assign_all E c s kw = (s', Ok) ->
   forallb (fun p => match trait_of c (fst p), get s' (fst p) with
-                    | Some (d, _), Some w => conv_ok E d (snd p) w
+                    | Some (d, _), Some w => conv_ok1 E d (snd p) w
                     | _, _ => false
                     end) kw = true.
 Proof.
@@ -215,7 +215,7 @@ Proof.
     split.
     - intros ->. apply Hnotin. apply in_map_iff. now exists p.
     - destruct (class_ok_at E c _ _ _ Hc Htp) as (_ & Hrp & _). unfold shadow. lia. }
-  rewrite Hgn, (vs_conv E c s d v w Hwf HB Hv). cbn.
+  rewrite Hgn, (vs_conv1 E c s d v w Hwf HB Hv). cbn.
   apply (IH s1 s'); auto. split; [exact Hnd'|]. split; [|exact Hdef]. intros p Hp'. apply Htr. now right.
 Qed.
 
